@@ -28,7 +28,7 @@ LEVEL_TEXT = ("seeded search over thread schedules of the real code: random sche
 LEVEL_NOTE = ("pre-emption granularity is the source line of ellipticcurve.py / numbertheory.py / _rwlock.py (bytecode "
               "instruction inside the publishing functions in instr mode); SimLock replaces threading.Lock only; "
               "interleavings inside C builtins or a single bytecode are out of reach")
-RUNS = {"quick": 24000, "thorough": 800000}
+RUNS = {"quick": 24000, "thorough": 1000000}
 RULE = ("lock part: seeded programs for up to 2 readers + 2 writers (1-3 rounds, 0-3 yields and optional stall inside the "
         "critical section) x seeded schedule (pre-emption steps + choice list); curve part: 2-3 thread programs over "
         "shared fresh generator / shared Jacobian point on a toy prime-order curve, SECP112r1/128r1 or NIST256p x "
@@ -39,10 +39,10 @@ REAL = ["ecdsa._rwlock.RWLock/_LightSwitch (unmodified algorithm)", "ecdsa.ellip
         "ecdsa.numbertheory", "ecdsa.keys / ecdh / plug-in ECC proxies (library-level programs on NIST256p)"]
 STUBS = ["threading.Lock -> SimLock (parks threads, raises on release of an unlocked lock)",
          "thread scheduling -> Sched (baton passing)", "clock -> virtual (sim.sleep)", "RNG -> per-thread seeded stream"]
-PROBES = ["preempt-inside-mul_add", "two-readers-inside", "writer-parked-while-readers-inside", "reader-parked-behind-writer",
+PROBES = ["lock-sweep-run", "preempt-inside-mul_add", "two-readers-inside", "writer-parked-while-readers-inside", "reader-parked-behind-writer",
           "preempt-inside-precompute", "preempt-inside-scale", "table-built-in-run", "clock-jump",
           "three-threads", "sweep-run", "instr-mode"]
-THOROUGH_ONLY_PROBES = ["instr-mode", "sweep-run"]
+THOROUGH_ONLY_PROBES = ["instr-mode", "sweep-run", "lock-sweep-run"]
 ASSUMPTIONS = ["writer priority / who goes first is not part of the property and is never demanded",
                "releasing a mutex from another thread than the taker is legal (light switch) and not flagged"]
 
@@ -153,6 +153,8 @@ def gen(st, tier):
     i = w.randrange(100)
     if tier == "thorough" and st.index < SWEEP_TOTAL:
         return _gen_sweep_systematic(st.index)
+    if tier == "thorough" and st.index < SWEEP_TOTAL + LOCK_SWEEP_TOTAL:
+        return _gen_lock_sweep(st.index - SWEEP_TOTAL)
     if tier == "thorough" and w.random() < 0.15:
         return _gen_sweep(w, s)
     if i < 62:
@@ -206,6 +208,34 @@ for _c in SWEEPS:
     SWEEP_OFFSETS.append(_acc)
     _acc += _c[3]
 SWEEP_TOTAL = _acc
+
+
+# systematic lock sweeps (thorough tier): for four small thread sets, every schedule with one or two
+# pre-emptions (global steps i < j <= 128, which covers every step of these runs) x 9 choice patterns
+LOCK_SWEEPS = [["r", "w"], ["r", "r", "w"], ["r", "w", "w"], ["r", "r", "w", "w"]]
+LOCK_NMAX = 128
+LOCK_PAIRS = LOCK_NMAX * (LOCK_NMAX - 1) // 2 + LOCK_NMAX       # pairs i<j plus singles
+LOCK_SLOTS = LOCK_PAIRS * 9
+LOCK_SWEEP_TOTAL = LOCK_SLOTS * len(LOCK_SWEEPS)
+
+
+def _gen_lock_sweep(index):
+    k, slot = divmod(index, LOCK_SLOTS)
+    pidx, cpat = divmod(slot, 9)
+    if pidx < LOCK_NMAX:
+        pre = [pidx + 1]
+    else:
+        q = pidx - LOCK_NMAX
+        # decode the q-th pair (i, j), 1 <= i < j <= NMAX
+        i = 1
+        while q >= LOCK_NMAX - i:
+            q -= LOCK_NMAX - i
+            i += 1
+        pre = [i, i + 1 + q]
+    c1, c2 = divmod(cpat, 3)
+    threads = [{"role": r, "rounds": [{"y": 1, "sleep": None}]} for r in LOCK_SWEEPS[k]]
+    return {"part": "lock", "threads": threads, "preempt": [["abs", p] for p in pre], "choices": [c1, c2] * 8,
+            "first": 0, "lock_sweep": k}
 
 
 def _gen_sweep_systematic(index):
@@ -331,6 +361,12 @@ def _run_lock(case, out):
     out.log.append(("lock", tuple(s.lock_ops), s.aborted))
     out.sets["lock_states"] = states
     out.sets["lock_interleavings"] = {hash(tuple(s.lock_ops))}
+    if case.get("lock_sweep") is not None:
+        k = case["lock_sweep"]
+        out.probes["lock-sweep-run"] += 1
+        out.sets["locksweep%d_steps" % k] = {dry.step}
+        out.sets["locksweep%d_interleavings" % k] = {hash(tuple(s.lock_ops))}
+        out.sets["locksweep%d_states" % k] = set(states)
     narrow = dict(case, preempt=[["abs", p] for p in sorted(set(pre))])
     if s.aborted == "invariant":
         c, i, d = s.violation
@@ -667,7 +703,22 @@ def evidence_extra(total):
             rep["sweep %d %s %s|%s" % (k, cfg[0], cfg[1], cfg[2])] = {
                 "steps_of_thread0": steps, "distinct_points_preempted": len(pts),
                 "complete": all(j in pts for j in range(1, steps))}
-    return {"systematic_sweeps": rep} if rep else {}
+    lrep = {}
+    for k, roles in enumerate(LOCK_SWEEPS):
+        n = total["sets"].get("locksweep%d_steps" % k)
+        if n:
+            lrep["%d %s" % (k, "+".join(roles))] = {
+                "steps_of_a_run_without_pre-emption": sorted(n),
+                "covered_by_enumeration_up_to_step": LOCK_NMAX,
+                "schedule_family": "all schedules with 1 or 2 pre-emptions x 9 choice patterns",
+                "distinct_lock_operation_interleavings": len(total["sets"].get("locksweep%d_interleavings" % k, ())),
+                "distinct_abstract_states": len(total["sets"].get("locksweep%d_states" % k, ()))}
+    res = {}
+    if rep:
+        res["systematic_sweeps"] = rep
+    if lrep:
+        res["systematic_lock_sweeps"] = lrep
+    return res
 
 
 def run(case):
